@@ -5,7 +5,7 @@
   `levinson r order = .ok (a, e)` reads: `levinson_durbin(r, order)` returns a filter with
   `numerator = a` and `error = e` (no division by zero met).  `K` is any field.
 -/
-import ALV.Lemmas.C10Lev
+import ALV.Lemmas.C10Min
 import ALV.Common.Audit
 
 namespace ALV.Props.C10
@@ -88,6 +88,48 @@ theorem levinson_error (r : List K) (order : Option Nat) (a : List K) (e : K)
 example : levinson [(1 : Rat), 1/2, 1/4, 1/3] (some 3) = .ok ([1, -1/2, 5/36, -5/18], 299/432) := by decide +kernel
 example : levinson [(1 : Rat), 1, 1] (some 2) = .error "ParCorError" := by decide +kernel
 example : levinson [(2 : Rat), 1] (some 3) = .ok ([1, -3/4, 1/2, -1/4], 5/4) := by decide +kernel
+
+/-! ### lpc.kautocor -/
+
+/-- the order `lpc.kautocor` / `lpc.kcovar` work with: `order`, or `len(blk) − 1` for `None` -/
+def blkOrder (blk : List K) (order : Option Nat) : Nat := order.getD (blk.length - 1)
+
+/-- **C10.3a** `lpc.kautocor(blk, order)`, when it returns, solves the Yule–Walker equations of
+the block's autocorrelation `acorr(blk, order)`. -/
+theorem kautocor_normal_eqs (blk : List K) (order : Option Nat) (a : List K) (e : K)
+    (h : kautocor blk order = .ok (a, e)) :
+    IsYuleWalker (acorr blk order) a (blkOrder blk order) := by
+  have := levinson_normal_eqs (acorr blk order) order a e h
+  cases order with
+  | none => simpa [orderOf, blkOrder, acorr] using this
+  | some p => simpa [orderOf, blkOrder] using this
+
+/-- **C10.3b** its `error` attribute equals the energy of `a` convolved with the zero-extended
+block, `Σ_{n < N+p} (Σ_j a_j x̃[n−j])²` (all orders, also `order ≥ len(blk)`). -/
+theorem kautocor_energy (blk : List K) (order : Option Nat) (a : List K) (e : K)
+    (h : kautocor blk order = .ok (a, e)) : e = energy a blk (blkOrder blk order) := by
+  obtain ⟨r, hr, hinv, he⟩ := kautocor_ok h
+  rw [he]
+  exact inner_acorr_eq_energy blk r a _ hinv.len hr
+
+/-- **C10.3c** (ordered field) and the returned filter minimises that energy among all monic
+filters of order ≤ p. -/
+theorem kautocor_minimises [LinearOrder K] [IsStrictOrderedRing K]
+    (blk : List K) (order : Option Nat) (a : List K) (e : K)
+    (h : kautocor blk order = .ok (a, e)) (b : List K) (hb0 : coef b 0 = 1)
+    (hbl : b.length ≤ blkOrder blk order + 1) :
+    energy a blk (blkOrder blk order) ≤ energy b blk (blkOrder blk order) := by
+  obtain ⟨r, hr, hinv, _⟩ := kautocor_ok h
+  unfold blkOrder at hbl ⊢
+  rw [← inner_acorr_eq_energy blk r a _ hinv.len hr, ← inner_acorr_eq_energy blk r b _ hbl hr,
+    inner_eq_bilT r a a _ hinv.len hinv.len, inner_eq_bilT r b b _ hbl hbl]
+  exact bilT_minimal (coef blk) blk.length (fun n hn => coef_of_length_le blk n hn) r _ hr
+    (coef a) (coef b) hinv.a0 hb0 hinv.ne
+
+/-- non-vacuity: `lpc.kautocor([1,2,3,4,3,2], 2)` returns, with the values of the real code -/
+example : kautocor [(1 : Rat), 2, 3, 4, 3, 2] (some 2) = .ok ([1, -38/27, 16/27], 55/9) := by decide +kernel
+example : energy [(1 : Rat), -38/27, 16/27] [1, 2, 3, 4, 3, 2] 2 = 55/9 := by decide +kernel
+example : energy [(1 : Rat), -1, 1/2] [1, 2, 3, 4, 3, 2] 2 = 43/4 ∧ (55/9 : Rat) ≤ 43/4 := by decide +kernel
 
 end ALV.Props.C10
 
